@@ -116,8 +116,11 @@ def create_retry(attempts, exc_type={default_exc}):
     gs = _calls_named(pws, "_get_stale_nodes")
     flags["staleCheckReceivesRetry"] = len(gs) == 1 and _kw_passes(gs[0], "retry", "retry")
     pns = _find_func(cach, "process_no_stale_ancestor", F)
+    # `retry(value_store.get_modified_time)()`: the decorated bound method is what gets called
     flags["mtimeQueryRetried"] = any(
-        _same(s, "modified_time = _to_naive_utc_time(retry(value_store.get_modified_time)())") for s in pns.body)
+        isinstance(n, ast.Call) and not n.args and not n.keywords and _same(n.func, "retry(value_store.get_modified_time)")
+        for n in ast.walk(pns)) and sum(
+        1 for n in ast.walk(pns) if isinstance(n, ast.Attribute) and n.attr == "get_modified_time") == 1
     flags["oneRetrySiteInCaching"] = len(_calls_named(cach, "retry")) == 1
     rph = _find_func(phys, "run_physical", F)
     pp = _calls_named(rph, "prep_run_physical")
@@ -125,23 +128,22 @@ def create_retry(attempts, exc_type={default_exc}):
     prep = _find_func(phys, "prep_run_physical", F)
     flags["retryDefaultsToIdentity"] = any(_same(s, "retry = retry or identity") for s in prep.body)
     proc = _find_func(prep, "process", F)
-    flags["callRunsThroughRetry"] = any(
-        isinstance(n, ast.Try) and _same(n.body, "bound_call.value.run(node.fn, retry)") for n in ast.walk(proc))
+    flags["callRunsThroughRetry"] = sum(
+        1 for n in ast.walk(proc) if isinstance(n, ast.Call) and _same(n, "bound_call.value.run(node.fn, retry)")) == 1 and not any(
+        isinstance(n, ast.Call) and _same(n.func, "node.fn") for n in ast.walk(proc))
     bc = _find_class(phys, "BoundCall", F)
     brun = next((n for n in bc.body if isinstance(n, ast.FunctionDef) and n.name == "run"), None)
-    flags["boundCallAppliesRetryToFn"] = brun is not None and _same(brun, '''
-def run(self, fn, retry):
-    args = [arg.value for arg in self.args]
-    kwargs = {name: arg.value for name, arg in self.kwargs.items()}
-    self.result.value = retry(fn)(*args, **kwargs)
-''')
+    # `self.result.value = retry(fn)(…)` is the only place `fn` is used
+    flags["boundCallAppliesRetryToFn"] = brun is not None and [a_.arg for a_ in brun.args.args] == ["self", "fn", "retry"] and any(
+        isinstance(st, ast.Assign) and ast.unparse(st.targets[0]) == "self.result.value" and isinstance(st.value, ast.Call)
+        and _same(st.value.func, "retry(fn)") for st in brun.body) and sum(
+        1 for n in ast.walk(brun) if isinstance(n, ast.Name) and n.id == "fn") == 1
     flags["oneRetrySiteInRunPhysical"] = len(_calls_named(phys, "retry")) == 1
     avs = _find_func(cach, "_add_value_store", F)
+    uses_nested = [n for n in ast.walk(avs) if isinstance(n, ast.Call) and isinstance(n.func, ast.Name) and n.func.id == "nested_call"]
     flags["storeReadWriteAreCalls"] = (
-        sum(1 for n in ast.walk(avs) if isinstance(n, ast.Assign)
-            and _same(n, "read_node = nested_call(value_store.__class__.read, value_store_lit)")) == 1
-        and sum(1 for n in ast.walk(avs) if isinstance(n, ast.Assign)
-                and _same(n, "write_node = nested_call(value_store.__class__.write, value_store_lit, node)")) == 1)
+        sum(1 for n in uses_nested if n.args and _same(n.args[0], "value_store.__class__.read")) == 1
+        and sum(1 for n in uses_nested if n.args and _same(n.args[0], "value_store.__class__.write")) == 1)
 
     names = sorted(flags)
     b = lambda v: "true" if v else "false"  # noqa: E731
